@@ -1359,7 +1359,7 @@ def oracle_c14(ctx, focus):
                 suspects.append("%s:%d: %s" % (os.path.relpath(p, t2nlib.REPO), ln, st[:100]))
     ctx.samples["c14"] = [{"threads": 16, "requests": len(lines), "rounds": rounds, "static_suspects": suspects[:10]}]
     res = {"evaluations": n, "distinct_nontrivial": len(set(lines)), "failures": failures[:5000], "static_suspects": suspects,
-           "rule": "one shared set of interpreters (and Language values), 16 threads x seeded random calls drawn from text/val/scan/apply streams of all 7 languages, each answer compared with a fresh interpreter's; fd1/fd2 of a child running the call mix must stay empty; Send+Sync asserted at compile time"}
+           "rule": "one shared set of interpreters (and Language values) constructed in a seed-dependent order, 16 threads x seeded random calls drawn from text/val/scan/apply streams of all 7 languages, each answer compared with the answer of a fresh interpreter created first on a fresh thread (minimal history); fd1/fd2 of a child running the call mix must stay empty; Send+Sync asserted at compile time"}
     if suspects and not failures:
         res["tie_broken"] = "print/unsafe/interior-mutability site in non-test code: " + "; ".join(suspects[:3])
     return res
